@@ -1,1 +1,99 @@
-fn main() { refmodel::hi(); let v = jsonb::parse_value(b"[1]").unwrap(); println!("{:?}", v.to_vec()); }
+mod checks;
+mod conv;
+mod harness;
+mod univ;
+
+use harness::*;
+use std::time::Instant;
+
+fn usage() -> ! {
+    eprintln!("usage: mc check <ID> [--tier quick|thorough] | mc replay <file>");
+    std::process::exit(2)
+}
+
+pub struct Plan {
+    pub spaces: Vec<Space<'static>>,
+    pub rule: String,
+    pub bounds: serde_json::Value,
+    pub assumptions: Vec<String>,
+}
+
+fn plan(prop: &str, tier: Tier) -> Option<Plan> {
+    let (spaces, (rule, bounds, assumptions)) = match prop {
+        "C01" => (checks::c01::spaces(tier), checks::c01::meta(tier)),
+        _ => return None,
+    };
+    Some(Plan { spaces, rule, bounds, assumptions })
+}
+
+fn main() {
+    let args: Vec<String> = std::env::args().collect();
+    if args.len() < 3 {
+        usage();
+    }
+    install_panic_hook();
+    let seed: i64 = std::env::var("VERIF_SEED").ok().and_then(|s| s.parse().ok()).unwrap_or(0);
+    match args[1].as_str() {
+        "check" => {
+            let prop = args[2].clone();
+            let mut tier = match std::env::var("VERIF_TIER").as_deref() {
+                Ok("thorough") => Tier::Thorough,
+                _ => Tier::Quick,
+            };
+            let mut i = 3;
+            while i < args.len() {
+                if args[i] == "--tier" && i + 1 < args.len() {
+                    tier = if args[i + 1] == "thorough" { Tier::Thorough } else { Tier::Quick };
+                    i += 1;
+                }
+                i += 1;
+            }
+            let t0 = Instant::now();
+            let Some(p) = plan(&prop, tier) else {
+                eprintln!("unknown property {}", prop);
+                std::process::exit(2);
+            };
+            eprintln!("== {} {} ==", prop, tier.name());
+            let (acc, sizes) = run_spaces(&p.spaces);
+            let out = Outcome {
+                acc,
+                spaces: sizes,
+                bounds: p.bounds,
+                rule: p.rule,
+                assumptions: p.assumptions,
+                exhaustive: true,
+                caps_hit: vec![],
+                extra: Default::default(),
+            };
+            let code = finish(&prop, tier, seed, t0, out, Some(&p.spaces));
+            std::process::exit(code);
+        }
+        "replay" => {
+            let body = std::fs::read_to_string(&args[2]).expect("cannot read replay file");
+            let v: serde_json::Value = serde_json::from_str(&body).expect("bad replay file");
+            let prop = v["property"].as_str().unwrap().to_string();
+            let tier = if v["tier"] == "thorough" { Tier::Thorough } else { Tier::Quick };
+            let space = v["space"].as_str().unwrap();
+            let index = v["index"].as_u64().unwrap();
+            let p = plan(&prop, tier).expect("unknown property");
+            match rerun(&p.spaces, space, index) {
+                Some(acc) => {
+                    if acc.vios.is_empty() {
+                        println!("replay: no violation at {}[{}]", space, index);
+                        std::process::exit(0);
+                    }
+                    for (c, x) in &acc.vios {
+                        println!("replay: class={} detail={}", c, x.detail);
+                    }
+                    println!("VIOLATION property={} replay={}", prop, args[2]);
+                    std::process::exit(1);
+                }
+                None => {
+                    eprintln!("replay: space {} not found", space);
+                    std::process::exit(2);
+                }
+            }
+        }
+        _ => usage(),
+    }
+}
